@@ -284,6 +284,7 @@ def delete_geff(store: StoreLike, zarr_format: Literal[2, 3] = 2) -> None:
         store (StoreLike): StoreLike geff that should be deleted
         zarr_format (Literal[2, 3], optional): Zarr format used to write input store. Defaults to 2.
     """
+    store = remove_tilde(store)
     # Open the existing group in the zarr format it was written with, which may differ
     # from the format of the geff that is about to be written
     try:
@@ -330,6 +331,7 @@ def check_for_geff(store: StoreLike, zarr_format: Literal[2, 3] = 2) -> bool:
     Returns:
         bool: True if a geff already exists
     """
+    store = remove_tilde(store)
     if isinstance(store, Path):
         exists = store.exists()
     elif isinstance(store, str):
